@@ -339,13 +339,29 @@ impl Criterion {
   pub fn is_applicable<'a>(
     &self,
     topic_name: &'a str,
-    mut partitions: impl Iterator<Item = &'a &'a str>,
+    partitions: impl Iterator<Item = &'a &'a str>,
     mut data_tags: impl Iterator<Item = &'a (&'a str, &'a str)>,
   ) -> bool {
     debug_assert!(!self.topics.is_empty());
 
+    // The default partition is the "empty string" partition, both for an Entity that
+    // names no partitions and for a Criterion without a partitions section.
+    let partition_matches = |p: &str| {
+      if self.partitions.is_empty() {
+        p.is_empty()
+      } else {
+        self.partitions.iter().any(|glob| glob.matches(p))
+      }
+    };
+    let mut partitions = partitions.peekable();
+    let partitions_match = if partitions.peek().is_none() {
+      partition_matches("")
+    } else {
+      partitions.all(|p| partition_matches(p))
+    };
+
     self.topics.iter().any(|glob| glob.matches(topic_name))
-      && partitions.all(|p| self.partitions.iter().any(|glob| glob.matches(p)))
+      && partitions_match
       && data_tags.all(|(name, value)| self.data_tags.iter().any(|dt| dt.check(name, value)))
   }
 
